@@ -27,13 +27,15 @@ LEVEL = "exploration"
 RULE = (
     "pairs: every ordered pair of strings over {A,G,C} up to length 3 (quick) / 4 (thorough) x 2 scoring models x "
     "global/local, decided by enumeration of all paths; seeded random pairs of length 1-6 (all paths enumerated) and "
-    "1-40 (quick) / 1-90 (thorough): identical, unrelated, low-complexity repeats, indel-mutated copies with adjacent "
+    "1-40 (quick) / 1-90 and 1-150 (thorough): identical, unrelated, low-complexity repeats, indel-mutated copies with adjacent "
     "insertions and deletions, DNA (incl. N) and protein x scoring dict (make_dna_scoring_dict, make_generic_scoring_dict, "
     "random symmetric, random asymmetric, float) x gap open {0..20} x gap extend {0..5} x global/local x "
     "HIRSCHBERG_LIMIT {huge, 0, intermediate} x kernel {compiled, py_func, py_calc_rows}. align_to_ref: 2-6 indel-mutated "
     "copies, every sequence (and 'longest') as reference, DNA/protein, penalty grid. progressive_align/tree_align: 2-6 "
     "sequences, nucleotide/protein/codon models, given or estimated guide tree, indel_rate/indel_length grid, forced "
-    "Hirschberg, py_func kernels. Non-trivial = pairwise alignment with a gap run in each row (or local alignment that "
+    "Hirschberg, py_func kernels; every pairwise step inside a progressive alignment (sequence x sequence and "
+    "sub-alignment x sub-alignment, read off the live objects incl. predecessor graphs and traceback) is decided like a "
+    "pairwise alignment. Non-trivial = pairwise alignment with a gap run in each row (or local alignment that "
     "trims both inputs), MSA in which a reference gap has to be injected into another row, progressive result with gaps; "
     "distinct = (entry point, moltype, algorithm, gap-layout class)."
 )
@@ -41,7 +43,8 @@ LEVEL_TEXT = (
     "Each pairwise result is checked against an independent Viterbi over the transition/emission arrays observed in the "
     "live pair-HMM (reported score == optimum == re-scored returned rows, 1e-9), exhaustively against all paths for "
     "inputs up to 6x6, and against itself under forced linear-space recursion and under the un-jitted kernels; "
-    "align_to_ref is checked by projecting the result back onto every (reference,row) pair. Sampled outside the "
+    "align_to_ref is checked by projecting the result back onto every (reference,row) pair; each pairwise step of a "
+    "progressive alignment is re-optimised over its observed predecessor graphs and its traceback re-scored. Sampled outside the "
     "small-scope bound; held means held on the executions listed in the evidence."
 )
 LEVEL_NOTE = (
@@ -53,6 +56,7 @@ ASSUMPTIONS = [
     "the arrays captured from PairEmissionProbs.dp are the model the aligner optimises (cross-checked against the scoring dict / gap penalties)",
     "co-optimal paths may differ between algorithms: only scores, and each path's own score, are compared",
     "a local alignment starts and ends with an aligned (match) column",
+    "progressive_align without a guide tree may decline (NotCompleted from the distance / tree step) when no distance is defined: counted as refused",
 ]
 ENV = {"NUMBA_BOUNDSCHECK": "1"}
 TIMEOUT = {"quick": 1200, "thorough": 7200}
@@ -86,7 +90,7 @@ def gen_cases(rng, tier):
             {
                 "kind": "pairs",
                 "seed": rng.randrange(2**32),
-                "n": {40: 12, 90: 6, 150: 3}[maxlen],
+                "n": {40: 12, 90: 12, 150: 6}[maxlen],
                 "moltype": "dna" if i % 3 else "protein",
                 "maxlen": maxlen,
             }
@@ -997,7 +1001,7 @@ def run_prog(case, limit, mode):
                 kw["guide_tree"] = case["tree"]
             out = get_app("progressive_align", model, **kw)(seqs)
             if not hasattr(out, "to_dict"):
-                st.fail = ("not-completed", str(getattr(out, "message", out))[-600:])
+                st.fail = (str(getattr(out, "origin", "?")), str(getattr(out, "message", out))[-600:])
                 return None, st
         else:
             m = {"nucleotide": "HKY85", "protein": "JTT92", "codon": "MG94HKY"}[model]
@@ -1041,8 +1045,14 @@ def check_prog(res, case):
             bad(exc_mechanism(f"{op}/{tag}".rstrip("/"), ex), error=repr(ex)[:300])
             return None, None
         if rows is None:
+            if not case.get("tree") and st.fail[0] != "progressive_align":
+                # no guide tree could be estimated (e.g. no distance defined between two short unrelated sequences):
+                # the app declines with a NotCompleted from the distance / tree step, before any alignment is attempted
+                res.refused += 1
+                res.count("prog:refused:no-guide-tree@" + st.fail[0])
+                return None, None
             res.evals += 1
-            bad(f"{op}/{tag}not-completed", message=st.fail[1])
+            bad(f"{op}/{tag}not-completed@{st.fail[0]}", message=st.fail[1])
             return None, None
         return rows, st
 
